@@ -64,7 +64,7 @@ def strategy(draw, tier="quick"):
         elif name == "saveload":
             ops.append([name, draw(st.sampled_from(SAVE_FMTS))])
         elif name == "join":
-            ops.append([name, draw(st.one_of(st.none(), _cell()))])
+            ops.append([name, draw(st.one_of(st.none(), _cell())), draw(st.booleans())])     # cell of the other operand, other.join(self)?
         else:
             ops.append([name])
     return {"nf": nf, "na": na, "ops": ops, "first": draw(_cell())}
@@ -253,8 +253,9 @@ def run_case(case):
                     oA = oA.astype(np.float32).astype(np.float64)
                 complete_self = mL is not None and mA is not None
                 complete_other = oL is not None
+                swapped = len(op) > 2 and bool(op[2])
                 try:
-                    t2 = t.join(other)
+                    t2 = other.join(t) if swapped else t.join(other)
                 except Exception as e:
                     if complete_self == complete_other and (mL is None) == (mA is None):
                         viol.append(("join/raised", "join of two trajectories with equal cell presence raised %s" % type(e).__name__))
@@ -266,13 +267,20 @@ def run_case(case):
                     if t2.unitcell_vectors is not None and t2.unitcell_lengths is not None and len(t2.unitcell_lengths) == t2.n_frames \
                             and not (complete_self and complete_other):
                         viol.append(("join/fabricated-cell", "joined trajectory has a complete cell although one input had none"))
+                    # one operand with a complete cell, the other with none at all: no output can have a complete per-frame cell
+                    # without inventing one, and an output without loses the cell an input had - only a refusal is consistent
+                    bare_self = mL is None and mA is None
+                    if (complete_self and not complete_other) or (bare_self and complete_other):
+                        if t2.unitcell_lengths is None or t2.unitcell_angles is None:
+                            viol.append(("join/cell-dropped", "%s: accepted, and the result has no unit cell although one input had a complete one" % (
+                                "bare.join(boxed)" if (bare_self != swapped) else "boxed.join(bare)")))
                     t = t2
                     mL = None if t.unitcell_lengths is None else np.asarray(t.unitcell_lengths, dtype=np.float64)
                     mA = None if t.unitcell_angles is None else np.asarray(t.unitcell_angles, dtype=np.float64)
                     continue
                 t = t2
-                mL = None if mL is None else np.concatenate([mL, oL])
-                mA = None if mA is None else np.concatenate([mA, oA])
+                mL = None if mL is None else (np.concatenate([oL, mL]) if swapped else np.concatenate([mL, oL]))
+                mA = None if mA is None else (np.concatenate([oA, mA]) if swapped else np.concatenate([mA, oA]))
             elif name == "stack":
                 other = md.Trajectory(t.xyz.copy() + 1.0, t.topology.copy(), time=t.time.copy())
                 t = t.stack(other)
